@@ -39,3 +39,14 @@ func VerifBldPredefined() map[string]Completed {
 		"ClientTrackingOffCmd": cmds.ClientTrackingOffCmd, "DiscardCmd": cmds.DiscardCmd,
 	}
 }
+
+// VerifBldPeek reads (cs.s, cf, ks) of any incomplete builder value.
+func VerifBldPeek(v any) (s []string, cf int16, ks uint16, ok bool) { return cmds.VerifBldPeek(v) }
+
+// VerifBldCacheableCS returns (len(s), l, r) of the pooled command slice behind a Cacheable.
+func VerifBldCacheableCS(c Cacheable) (n int, l int32, r int32) {
+	return cmds.VerifBldCSState(cmds.CacheableCS(c))
+}
+
+// VerifBldWithCF creates a Completed with an arbitrary flag word (to observe the Is*() predicates).
+func VerifBldWithCF(ss []string, cf uint16) Completed { return cmds.VerifBldWithCF(ss, cf) }
